@@ -1,6 +1,6 @@
 (** C02 — filters select exactly the matching lines. *)
 From Coq Require Import List NArith ZArith Bool Lia.
-From AG Require Import Str Ops Filter Pipeline Str_proofs Match_proofs Ops_proofs.
+From AG Require Import Str Ops Filter Pipeline Str_proofs Match_proofs Ops_proofs Grammar Print FilterRoundtrip_proofs.
 Import ListNotations.
 Open Scope N_scope.
 
@@ -51,3 +51,32 @@ Example C02_example :
   let f := FAnd [FKw KWild (lit "err*r"); FNot (FKw KExact (lit "a*b"))] in
   map (fmatches f) [lit "an ERROR here"; lit "error a*b"; lit "err" ++ [10] ++ lit "or"; lit "fine"] = [true; false; false; false].
 Proof. vm_compute. reflexivity. Qed.
+
+(** *** the filter syntax: every spelling of a filter is read back as that filter.
+    AND binds tighter than OR, NOT tighter than both, parentheses group, filters side by side are an
+    implicit AND, quoted keywords are literal, bare keywords are maximal runs of keyword characters;
+    whitespace runs, blanks inside parentheses and the quote style do not matter *)
+Theorem C02_filter_roundtrip : forall (o : popts) (fs : list filter) (rest : str),
+  popts_ok o = true -> fs <> [] -> forallb wf_filter fs = true -> search_stop rest = true ->
+  parse_search (fpp_top o fs ++ rest) = POk (FAnd fs) (skip_spaces rest).
+Proof. exact filter_roundtrip. Qed.
+Print Assumptions C02_filter_roundtrip.
+
+Theorem C02_filter_spellings_agree : forall (o1 o2 : popts) (fs : list filter) (rest : str),
+  popts_ok o1 = true -> popts_ok o2 = true -> fs <> [] -> forallb wf_filter fs = true -> search_stop rest = true ->
+  parse_search (fpp_top o1 fs ++ rest) = parse_search (fpp_top o2 fs ++ rest).
+Proof. exact filter_spellings_agree. Qed.
+Print Assumptions C02_filter_spellings_agree.
+
+(** `*` alone selects everything *)
+Theorem C02_star_is_everything : forall rest : str,
+  search_stop rest = true -> parse_search (lit "*" ++ rest) = POk (FAnd []) (skip_spaces rest).
+Proof. exact star_is_everything. Qed.
+Print Assumptions C02_star_is_everything.
+
+Example C02_filter_examples :
+  let k n := FKw KWild (lit n) in
+  parse_search (lit "a b OR c | count") = POk (FAnd [k "a"; FOr [k "b"; k "c"]]) (lit "| count") /\
+  parse_search (lit "a AND b OR NOT c") = POk (FAnd [FOr [FAnd [k "a"; k "b"]; FNot (k "c")]]) [] /\
+  parse_search (lit "( a OR b ) AND ""x y""") = POk (FAnd [FAnd [FOr [k "a"; k "b"]; FKw KExact (lit "x y")]]) [].
+Proof. exact filter_examples. Qed.
